@@ -81,6 +81,16 @@ def set_strategy(multi, runs=True):
                     if (a2, b2) != (a, b) and a2 >= a:
                         cues.append({"start": a2, "end": b2, "nodes": [{"t": f"n{len(cues)}"}], "style": {},
                                      "layout": None})
+            if not runs and draw(st.integers(0, 3)) == 0:
+                # (SAMI shape) a cue ends and the next one starts inside the same millisecond,
+                # at different microseconds
+                for a_, b_ in zip(cues, cues[1:]):
+                    if draw(st.booleans()) and a_["start"] < b_["start"] - 2000:
+                        ms0 = b_["start"] - b_["start"] % 1000
+                        if ms0 > a_["start"]:
+                            b_["start"] = ms0 + draw(st.integers(0, 999))
+                            b_["end"] = max(b_["end"], b_["start"])
+                            a_["end"] = ms0 + draw(st.integers(0, b_["start"] - ms0))
             langs.append({"code": ["en-US", "fr-FR"][li], "layout": None, "cues": cues[:7]})
         if nl == 2 and draw(st.integers(0, 4)) == 0:
             # one of two languages has no captions
@@ -111,6 +121,14 @@ def case_strategy(tier):
                     l["cues"][k] = dict(l["cues"][k], end=min(gen.DAY - 1, l["cues"][k]["end"] + draw(
                         st.sampled_from([gen.SEC, gen.MIN, gen.HOUR, 2 * gen.HOUR]))))
         case = {"writer": w, "set": s, "opts": opts, "lang": pick}
+        if w == "sami" and len(s["langs"]) == 2 and s["langs"][0]["cues"] and draw(st.integers(0, 3)) == 0:
+            # overlapping captions in the first language (SAMI has no spelling for them: that
+            # language is not judged); the second, sorted language must still come out in order
+            l0 = s["langs"][0]
+            k = draw(st.integers(0, len(l0["cues"]) - 1))
+            l0["cues"][k] = dict(l0["cues"][k], end=min(gen.DAY - 1, l0["cues"][k]["end"] + draw(
+                st.sampled_from([gen.SEC, 5 * gen.SEC, gen.MIN, gen.HOUR]))))
+            case["unjudged_langs"] = [l0["code"]]
         if pick and w in ("dfxp", "dfxp-single") and draw(st.integers(0, 3)) == 0:
             # the option value spells the language code in another case
             case["lang_spelling"] = draw(st.sampled_from(["lower", "upper"]))
@@ -264,12 +282,17 @@ def check_case(case, rec):
         exp.append([(_floor_units(c["start"], unit, is_float), _floor_units(c["end"], unit, is_float))
                     for c in l["cues"]])
 
+    for l in langs_written:
+        l["_unjudged"] = l["code"] in (case.get("unjudged_langs") or ())
     try:
         got = _extract(w, out, langs_written)
     except P.RefParseError as e:
         raise Violation(f"{w} output is not well-formed: {e}")
 
     for li, (e_seq, g_seq) in enumerate(zip(exp, got)):
+        if langs_written[li]["code"] in (case.get("unjudged_langs") or ()):
+            rec.label("language-not-judged")
+            continue
         if w in MERGING and not is_float:
             # only captions with IDENTICAL (start, end) may be merged into one cue
             cues_l = langs_written[li]["cues"]
@@ -349,6 +372,9 @@ def _extract(w, out, langs_written):
         res = []
         for l in langs_written:
             cls = l["code"].lower()
+            if l.get("_unjudged"):
+                res.append([])
+                continue
             events = []
             for sy in doc["syncs"]:
                 if sy["start"] is None or not re.fullmatch(r"\d+", sy["start"]):
@@ -362,6 +388,9 @@ def _extract(w, out, langs_written):
             seq = []
             for i, (t, blank) in enumerate(events):
                 if blank:
+                    if i + 1 < len(events) and not events[i + 1][1] and events[i + 1][0] == t:
+                        raise Violation(f"sami: blank sync of {l['code']} at {t} ms although the language's "
+                                        f"next cue starts at that millisecond: {out[:600]!r}")
                     continue
                 end = events[i + 1][0] if i + 1 < len(events) else None
                 seq.append((t, end))
